@@ -4,7 +4,7 @@
      wf_obj o      field names are unique inside every dataclass (Python guarantees it);
      deep_nf cs    the change set is in nested form: distinct, dot-free keys at every level;
      wf_nested cs  deep_nf, and no empty sub-dict (an empty sub-dict has no dotted rendering). *)
-From SPV Require Import Base.Str Model.Replace Model.ReplaceSpec Gen.FactsReplace Proofs.ReplaceProofs.
+From SPV Require Import Base.Str Model.Replace Model.ReplaceSpec Gen.FactsReplace Proofs.ReplaceProofs Proofs.ReplaceMapping.
 
 (* The model (with the separator, exception classes, guard order, recursion condition and left-over step
    regenerated from the source) satisfies the executable spec that the correspondence run evaluates. *)
@@ -34,6 +34,24 @@ Theorem C18_frame_other_node : forall o cs o' p,
   replace_gen o cs = Ok o' -> untouched (assigns o cs) p = true -> node_same (get o p) (get o' p) = true.
 Proof. exact gen_frame_other_node. Qed.
 Print Assumptions C18_frame_other_node.
+
+(* MAPPING VALUES: a mapping assigned to a field that does not hold a dataclass instance is the new VALUE of that field and
+   arrives unchanged WHATEVER its keys are (dotted ones included: {"git.sha": ..} stays {"git.sha": ..}).  Only the top
+   level of the change set must be in normal form (distinct dot-free keys); nothing is assumed about the mapping or about
+   the other entries - the statements under deep_nf above do not cover such values (seeded change C18-07 restructured them). *)
+Theorem C18_mapping_value_is_leaf : forall cls fs cs o' k d v,
+  wf_obj (VDc cls fs) = true -> keys_ok cs = true ->
+  replace_gen (VDc cls fs) cs = Ok o' ->
+  dget cs k = Some (VDict d) -> flookup fs k = Some (FInit, v) -> is_dc v = false ->
+  get o' [k] = Some (VDict d).
+Proof. exact mapping_value_is_leaf. Qed.
+Print Assumptions C18_mapping_value_is_leaf.
+Example C18_mapping_value_nonvacuous :
+  let o := VDc "C0" [("tags", FInit, VDict [("old", VLeaf "int" "1")]); ("n", FInit, VLeaf "int" "2")] in
+  let d := [("git.sha", VLeaf "str" "'abc'"); ("x.y.z", VDict [("a.b", VLeaf "int" "0")])] in
+  exists o', replace_gen o [("tags", VDict d)] = Ok o' /\ get o' ["tags"] = Some (VDict d) /\ deep_nf [("tags", VDict d)] = false.
+Proof. exact mapping_value_dotted_keys_example. Qed.
+Print Assumptions C18_mapping_value_nonvacuous.
 
 (* NIL: the empty change set re-runs the constructor and nothing else ... *)
 Theorem C18_nil : forall cls fs, replace_gen (VDc cls fs) [] = Ok (VDc cls (reset_noninit fs)).
